@@ -26,8 +26,8 @@ func ruleC04(prog *Program, rep *Report) {
 	rulePadBound(prog, rep)
 	ruleFlatSeparator(prog, rep)
 	ruleGenTwins(prog, rep, 1, "pretty", "oj", "sen", "alt", "jp", "asm", "gen", "")
-	ruleGlobalReturn(prog, rep, 5, "pretty", "oj") // the layout nodes a builder hands out are filled in by its caller (key, members)
-	ruleFlagConsist(prog, rep, 3, "oj", "gen") // pickWriter and friends: the in-memory and streaming entries pass their fixed flags alike
+	ruleGlobalReturn(prog, rep, 5, "pretty", "oj")   // the layout nodes a builder hands out are filled in by its caller (key, members)
+	ruleFlagConsist(prog, rep, 3, "oj", "gen")       // pickWriter and friends: the in-memory and streaming entries pass their fixed flags alike
 	ruleSelfRec(prog, rep, 2, "gen", "oj", "pretty") // the writers simplify generic nodes through gen's copying walk
 	// a Writer shared through the pool or left half-configured by the previous call does not emit the text of the in-memory call
 	rulePoolPut(prog, rep, "oj.Writer", "pretty.Writer")
